@@ -175,6 +175,15 @@ var globItems = []string{"*", "?", "[a-z]*", "*.com", "example.com", "github.com
 
 func genGlob(t *rapid.T) globCase {
 	target := gen.PathLike(t)
+	if gen.Chance(t, 8, "deeptarget") {
+		// more path elements than any small fixed table holds
+		n := []int{7, 8, 9, 10, 16, 17, 33}[gen.Uniform(t, 7, "deepn")]
+		el := []string{"corp.example.com"}
+		for i := 1; i < n; i++ {
+			el = append(el, []string{"a", "b", "c", "team", "x1"}[gen.Uniform(t, 5, "deepel")])
+		}
+		target = strings.Join(el, "/")
+	}
 	n := rapid.IntRange(0, 4).Draw(t, "n")
 	var items []string
 	for i := 0; i < n; i++ {
